@@ -183,6 +183,9 @@ end
 Model: `PMF.L` (lean/PlumpyModel/PM/Listener.lean; see the section of the same name in `Props/C04.lean`).  The exiting / entering
 callbacks run exactly where the invariant is temporarily broken (the future is resolved by `on_entering` before the new state object
 is assigned); the requests made there are deferred or refused and change nothing the reports of the outcome depend on.
+"step_until_terminated() returns" holds with listeners as well (`C02_listener_stepper_returns` and the readable parts of the
+lifted linking invariant, `PM/LProof16..18.lean`), and the `while` loop of the closing part of a step ends by itself
+(`C02_listener_closing_loop_ends`).
 -/
 namespace L
 
